@@ -1965,12 +1965,19 @@ theorem valid_ingressEngine {eng : Engine} (hv : eng.Valid) : (ingressEngine eng
   · exact hv
   · exact ⟨hv.npRules, hv.anpRules, hv.banpRules, hv.anpSorted⟩
 
+/-- a real pod is never taken for the ingress-controller pod the analysis adds, whatever its name and
+namespace (`isPodToItself` compares the `FakePod` flags too) -/
+theorem ingress_self_false_of_real {w : Pod} (h : w.fake = false) :
+    (ingressPod.name == w.name && ingressPod.ns == w.ns && ingressPod.fake == w.fake) = false := by
+  rw [h]
+  simp [ingressPod]
+
 /-- the policy connection from the ingress controller to a real workload with legal container
 ports, when computed, is well-formed and holds exactly the connections `Spec.allowed` grants
 between the ingress-controller pod and the workload's pod -/
 theorem policyConn_spec {eng : Engine} (hv : eng.Valid) {n : String} {w : Pod}
     (hrep : w.isRepresentative = false) (hp : ValidPod w)
-    (hne : (ingressPod.name == w.name && ingressPod.ns == w.ns) = false) {pc : ConnSet}
+    (hne : (ingressPod.name == w.name && ingressPod.ns == w.ns && ingressPod.fake == w.fake) = false) {pc : ConnSet}
     (h : policyConn (ingressEngine eng) n w = .ok pc) :
     pc.WF ∧ ∃ nsI nsW, (ingressEngine eng).findNs ingressPod.ns = some nsI ∧
       (ingressEngine eng).findNs w.ns = some nsW ∧
@@ -2000,7 +2007,7 @@ theorem policyConn_spec {eng : Engine} (hv : eng.Valid) {n : String} {w : Pod}
 error -/
 theorem policyConn_ok {eng : Engine} (hv : eng.Valid) {n : String} {w : Pod}
     (hrep : w.isRepresentative = false) (hp : ValidPod w)
-    (hne : (ingressPod.name == w.name && ingressPod.ns == w.ns) = false) {nsI nsW : NsObj}
+    (hne : (ingressPod.name == w.name && ingressPod.ns == w.ns && ingressPod.fake == w.fake) = false) {nsI nsW : NsObj}
     (h1 : (ingressEngine eng).findNs ingressPod.ns = some nsI)
     (h2 : (ingressEngine eng).findNs w.ns = some nsW) :
     ∃ pc, policyConn (ingressEngine eng) n w = .ok pc := by
